@@ -697,27 +697,27 @@ func (b *backend) pathRevokeIssuer(ctx context.Context, req *logical.Request, da
 		return nil, err
 	}
 
-	// If its already been revoked, just return the read results sans warnings
-	// like we would otherwise.
-	if issuer.Revoked {
-		return respondReadIssuer(issuer)
-	}
+	// If its already been revoked, keep the issuer (and its revocation time)
+	// as is. An earlier attempt may however have been interrupted after the
+	// issuer was written and before the revocation entry below was written
+	// or the CRL was rebuilt, so make sure of both before reporting success.
+	if !issuer.Revoked {
+		// When revoking, we want to forbid new certificate issuance. We allow
+		// new revocations of leaves issued by this issuer to trigger a CRL
+		// rebuild still.
+		issuer.Revoked = true
+		if issuer.Usage.HasUsage(IssuanceUsage) {
+			issuer.Usage.ToggleUsage(IssuanceUsage)
+		}
 
-	// When revoking, we want to forbid new certificate issuance. We allow
-	// new revocations of leaves issued by this issuer to trigger a CRL
-	// rebuild still.
-	issuer.Revoked = true
-	if issuer.Usage.HasUsage(IssuanceUsage) {
-		issuer.Usage.ToggleUsage(IssuanceUsage)
-	}
+		currTime := time.Now()
+		issuer.RevocationTime = currTime.Unix()
+		issuer.RevocationTimeUTC = currTime.UTC()
 
-	currTime := time.Now()
-	issuer.RevocationTime = currTime.Unix()
-	issuer.RevocationTimeUTC = currTime.UTC()
-
-	err = sc.writeIssuer(issuer)
-	if err != nil {
-		return nil, err
+		err = sc.writeIssuer(issuer)
+		if err != nil {
+			return nil, err
+		}
 	}
 
 	// Now, if the parent issuer exists within this mount, we'd have written
